@@ -306,7 +306,8 @@ PROPS = {
     "C06": {
         "level": "proof",
         "race": True,
-        "extract": ["Auth"],
+        "extra_modules": ["QiVerif.Props.Locks", "QiVerif.Tie.Locks"],
+        "extract": ["Auth", "Locks"],
         "rule": "a real StandAloneServer (authenticator: dictionary / Yes / No; two probe services counting invocations) on "
                 "harness-owned in-memory connections (1-3 per round); raw frames of every message type (incl. unknown type "
                 "bytes) x service 0 / probe / unknown services x objects x actions; authenticate payloads from a grammar "
